@@ -6,6 +6,8 @@ import ast
 from sa import astutil as A
 from sa import cfg as C
 from sa import dataflow as D
+from sa import surface as S
+from sa.rules import c08
 from sa.index import AnalysisError
 
 PROP = 'C05'
@@ -21,7 +23,7 @@ EXPLANATION = (
     'reset; (i) the JSON text is ASCII-safe for every file encoding.  Value-'
     'level round-trip equality is not decided.')
 FLOORS = {'C05.a': 12, 'C05.b': 1, 'C05.c': 1, 'C05.d': 1, 'C05.e': 1,
-          'C05.f': 2, 'C05.g': 1, 'C05.h': 1, 'C05.i': 1}
+          'C05.f': 2, 'C05.g': 1, 'C05.h': 1, 'C05.i': 1, 'C05.j': 1, 'C05.k': 1}
 FILES = ['pyglove/core/utils/json_conversion.py', 'pyglove/core/symbolic/base.py',
          'pyglove/core/symbolic/object.py', 'pyglove/core/symbolic/dict.py',
          'pyglove/core/symbolic/list.py', 'pyglove/core/typing/value_specs.py',
@@ -483,6 +485,114 @@ def rule_i(ctx):
          'so it is writable under every file encoding', f.loc, '; '.join(problems))
 
 
+def rule_k(ctx):
+  """The Dict serializer drops a key only for the documented reasons: excluded
+  by the caller, frozen (a class constant), holding the MISSING marker, or -
+  with hide_default_values - equal to the field's default.  Any other way round
+  the store loses data that the reader cannot reconstruct."""
+  idx = ctx.index
+  f = idx.lookup_method(S.DICT, 'sym_jsonify')
+  g = C.cfg_of(f.node)
+  stores = [k for k in g.nodes if k.kind == 'stmt' and isinstance(k.ast, ast.Assign)
+            and isinstance(k.ast.targets[0], ast.Subscript) and A.has_call(k.ast.value, lambda d: d.endswith('to_json'))]
+  if not stores:
+    # two-step form: v = to_json(...); json_repr[key] = v
+    tj = {nm for k in g.nodes if k.kind == 'stmt' and isinstance(k.ast, ast.Assign)
+          and A.has_call(k.ast.value, lambda d: d.endswith('to_json')) for nm in A.assigned_names(k.ast.targets[0])}
+    stores = [k for k in g.nodes if k.kind == 'stmt' and isinstance(k.ast, ast.Assign)
+              and isinstance(k.ast.targets[0], ast.Subscript) and isinstance(k.ast.value, ast.Name) and k.ast.value.id in tj]
+  if not stores:
+    raise AnalysisError('Dict.sym_jsonify: the per-key store was not found')
+  st = stores[0]
+  # innermost loop containing the store
+  loops = [k for k in g.nodes if k.kind == 'iter' and any(x is st.ast for x in ast.walk(k.ast))]
+  loop = loops[-1]
+  def allowed_skip_edge(t):
+    txt = A.unparse(t.ast, 200)
+    if 'exclude_keys' in txt:
+      return 'false' if ' not in ' in txt else 'true'
+    if c08.is_missing_cmp(t.ast):
+      return 'true'
+    if txt.endswith('.frozen'):
+      return 'true'
+    if isinstance(t.ast, ast.Call) and (A.call_name(t.ast) or '').split('.')[-1] == 'eq' and 'default' in txt:
+      return 'true'
+    return None
+  blocked = set()
+  for t in g.nodes:
+    if t.kind == 'test':
+      lab = allowed_skip_edge(t)
+      if lab:
+        blocked |= {(t.id, m.id, l) for m, l in t.succ if l == lab}
+  body_entries = [m for m, lab in loop.succ if lab in ('body', 'true', 'next')]
+  bad = None
+  for m in body_entries:
+    seen, parent = g.reach(m, blocked_nodes={st.id}, blocked_edges=blocked, follow_exc=False)
+    seen.add(m.id)
+    if loop.id in seen or any(h.id in seen for h in g.nodes if h.kind == 'loophead' and h.ast is loop.ast):
+      bad = g.witness_str(parent, loop) if loop.id in seen else ['(back to the loop head)']
+  ctx.ob('C05.k', f.fq, bad is None,
+         'a key of a schema-backed Dict is omitted from the JSON only when excluded, frozen, missing, or (with '
+         'hide_default_values) equal to its default', f.loc,
+         f'another path goes round the store: {bad}: the omitted value cannot be reconstructed when loading')
+  # non-schema branch: the comprehension filters on exclude_keys only
+  comps = [n for n in ast.walk(f.node) if isinstance(n, ast.DictComp)]
+  ok = True
+  why = ''
+  for c in comps:
+    for gen in c.generators:
+      for cond in gen.ifs:
+        if 'exclude_keys' not in A.unparse(cond):
+          ok, why = False, f'items are filtered by `{A.unparse(cond)}`'
+  ctx.ob('C05.k', f.fq + '#untyped', ok, 'an untyped Dict serializes every item except the excluded keys', f.loc, why)
+
+
+def rule_j(ctx):
+  """Record framing of the line sequence: the writer terminates every record
+  with one newline after removing trailing newlines; the reader removes that
+  newline from what it yields, and recognises end-of-file on the RAW result of
+  readline() (an empty record is the line '\\n', not the empty string)."""
+  idx = ctx.index
+  ctx.consult('pyglove/core/io/sequence.py')
+  f = idx.func('pyglove.core.io.sequence.LineSequence._iter')
+  g = C.cfg_of(f.node)
+  problems = []
+  reads = [k for k in g.nodes if k.ast is not None and any((A.call_name(c) or '').endswith('.readline') for c in k.calls())]
+  if not reads:
+    raise AnalysisError('LineSequence._iter no longer uses readline()')
+  eof_tests = [k for k in g.nodes if k.kind == 'test' and isinstance(k.ast, ast.Name)]
+  found = False
+  for t in eof_tests:
+    for dn, val in D.reaching_defs(g, t, t.ast.id):
+      if val is None:
+        continue
+      if A.has_call(val, lambda d: d.endswith('.readline')):
+        found = True
+        bare = isinstance(val, ast.Call) and (A.call_name(val) or '').endswith('.readline')
+        if not bare:
+          problems.append(f'end of file is tested on `{A.unparse(val)}`, not on the raw readline() result: an empty '
+                          f'record (the line "\\n") is taken for the end of the file and everything after it is lost')
+  if not found:
+    # `while (line := f.readline()):` / `for line in iter(f.readline, '')` forms are fine too
+    txt = A.unparse(f.node, 2000)
+    if 'readline()' not in txt and 'readline,' not in txt:
+      problems.append('no end-of-file test on readline()')
+  ys = [n for n in ast.walk(f.node) if isinstance(n, ast.Yield) and n.value is not None]
+  if not any("rstrip('\\n')" in A.unparse(y.value) or 'rstrip("\\n")' in A.unparse(y.value) or
+             any("rstrip('\\n')" in A.unparse(v) for _, v in D.defs_of(f.node, y.value.id) if v is not None)
+             if isinstance(y.value, ast.Name) else "rstrip('\\n')" in A.unparse(y.value) for y in ys):
+    problems.append("the reader no longer removes the record terminator '\\n'")
+  ctx.ob('C05.j', f.fq, not problems,
+         'the line reader detects end-of-file on the raw readline() result and strips exactly the terminator',
+         f.loc, '; '.join(problems))
+  f = idx.func('pyglove.core.io.sequence.LineSequence._add')
+  writes = [A.unparse(c.args[0]) for c in A.calls_in(f.node) if (A.call_name(c) or '').endswith('.write') and c.args]
+  ok = len(writes) == 2 and writes[1] == "'\\n'" and "rstrip('\\n')" in writes[0] or (
+      len(writes) == 1 and "rstrip('\\n')" in writes[0] and "'\\n'" in writes[0])
+  ctx.ob('C05.j', f.fq, ok, "the line writer terminates every record with exactly one '\\n'", f.loc,
+         f'writes {writes}')
+
+
 def run(ctx):
   ctx.consult(*FILES)
   rule_a(ctx)
@@ -494,4 +604,6 @@ def run(ctx):
   rule_g(ctx)
   rule_h(ctx)
   rule_i(ctx)
+  rule_j(ctx)
+  rule_k(ctx)
   ctx.assume('injectivity of the encoding over the value space and pg.eq after a round trip are not decided')
